@@ -575,13 +575,12 @@ theorem cmpFlds_zero_of_compareRule (T : Tables) (r o : Rule) (h : compareRule T
       · exact h
     · exact h
 
-/-- **Compare-equal means identical** (every meaningful kind, `file` and `include` included): on
-`Dom10`, two rules of one kind that `Compare` equal have the same qualifier and the same fields —
-they differ at most in their comment and bookkeeping flags. -/
-theorem compare_zero_identical (T : Tables) (hal : ∀ c ∈ T.stringAlphabet, lowerC c = c) {r o : Rule}
+/-- **Equal keys mean identical**: on `Dom10`, two rules of one kind whose key lists compare equal have
+the same qualifier and the same fields. -/
+theorem keys_zero_identical (T : Tables) (hal : ∀ c ∈ T.stringAlphabet, lowerC c = c) {r o : Rule}
     (hr : Dom10 T.stringAlphabet r) (ho : Dom10 T.stringAlphabet o) (hk : r.kind = o.kind)
-    (hc : compareRule T r o = 0) : r.audit = o.audit ∧ r.accessType = o.accessType ∧ r.flds = o.flds := by
-  have hz := cmpFlds_zero_of_compareRule T r o hc
+    (hz : cmpFlds T.stringAlphabet (keyList r) (keyList o) = 0) :
+    r.audit = o.audit ∧ r.accessType = o.accessType ∧ r.flds = o.flds := by
   have shr := keyList_shape r
   have sho := keyList_shape o
   rw [hr.shape] at shr
@@ -610,6 +609,14 @@ theorem compare_zero_identical (T : Tables) (hal : ∀ c ∈ T.stringAlphabet, l
       have b := ho.noQ (by rw [← hk]; exact hh)
       exact ⟨a.1.trans b.1.symm, a.2.trans b.2.symm⟩
   exact ⟨hq.1, hq.2, hflds⟩
+
+/-- **Compare-equal means identical** (every meaningful kind, `file` and `include` included): on
+`Dom10`, two rules of one kind that `Compare` equal have the same qualifier and the same fields —
+they differ at most in their comment and bookkeeping flags. -/
+theorem compare_zero_identical (T : Tables) (hal : ∀ c ∈ T.stringAlphabet, lowerC c = c) {r o : Rule}
+    (hr : Dom10 T.stringAlphabet r) (ho : Dom10 T.stringAlphabet o) (hk : r.kind = o.kind)
+    (hc : compareRule T r o = 0) : r.audit = o.audit ∧ r.accessType = o.accessType ∧ r.flds = o.flds :=
+  keys_zero_identical T hal hr ho hk (cmpFlds_zero_of_compareRule T r o hc)
 
 /-- **Duplicate contract**: dropping a rule that compares equal to an earlier one drops no fact. -/
 theorem dupContract (T : Tables) (hal : ∀ c ∈ T.stringAlphabet, lowerC c = c) :
